@@ -10,11 +10,16 @@
        ids, declares tables before use and closes every pipeline with a Select of the declared arity -- i.e. emits a
        `closed` RQ, which is all a back end needs for its lookups.  Visibility (clause 2 in its narrow form) depends on
        the resolver's scoping and is not a consequence of the machine; it is the per-program part.
-   Full statement "forall programs p, resolver p = Ok q -> rq_wf q = true" is FALSE of the current tree
-   (open findings C16-F1: the carried sort of Take / Window names an id of its own relation that is no longer visible;
-   C16-F4: an id of a sub-pipeline with duplicate column names escapes un-redirected; C16-F3 is a Lowerer panic).
-   c16_finding_* below are the concrete RQs; rq_wf_lax is what holds modulo F1.  C16-F2 (carried sort naming an id of
-   ANOTHER relation) was repaired in /repo (8f24a64) and is no longer tolerated: c16_regression_f2_*. *)
+   Full statement "forall programs p, resolver p = Ok q -> rq_wf q = true" is FALSE of the current tree (/repo HEAD):
+     open   C16-F1  the carried sort of Take / Window names an id of its own relation that a Select (or the Aggregate of
+                    a group body) has dropped -- rq_wf_lax is what holds modulo F1;
+            C16-F6  a function that mentions its relation parameter twice makes the Lowerer lower one PL node twice;
+            C16-F7  a column excluded by `select !{..}` in a joined sub-pipeline is still bound from outside.
+     fixed  C16-F2 (8f24a64), C16-F3 (7911778: lookup_cid reports an error instead of panicking),
+            C16-F4 (3b8ac37: create_a_table_instance keeps duplicate columns -- Model/Lowerer.v follows, and
+            inline_redirects_every_select_id below is the statement that was false of the old model),
+            C16-F5 (592b6f8: partition / window frame saved around relational arguments), and the plain-aggregate half
+            of F1 (8d54bf7).  Their RQs are kept below as c16_regression_*: none of them is tolerated any more. *)
 From Coq Require Import List NArith Bool.
 From PV Require Import Lib.ListX Model.Rq Model.RqWf Model.Lowerer Proofs.RqWfProofs Proofs.LowererProofs.
 Import ListNotations.
@@ -90,6 +95,23 @@ Theorem redirect_preserves_wf : forall pend s rs,
 Proof. exact redirect_inv. Qed.
 Print Assumptions redirect_preserves_wf.
 
+(* Pulling a sub-pipeline into a table (lower_table_ref, TransformCall arm): after the step NO id of the sub-pipeline's
+   closing Select is left in node_mapping -- each was redirected to the fresh id of the instance column at the same
+   position -- so no later expression of the enclosing pipeline can name an id that is defined only inside the new
+   table.  Full strength since 3b8ac37; before it (itertools::unique on the instance's columns) the statement was false:
+   c16_regression_f4_* is the RQ that resulted. *)
+Theorem inline_redirects_every_select_id : forall ops s node frame u s',
+  run init ops = Some s -> step s (OEndInline node frame u) = Some s' ->
+  forall c, In c (map snd frame) -> ~ In c (mapping_cids (mapping s')).
+Proof. exact lowerer_inline_redirects_all. Qed.
+Print Assumptions inline_redirects_every_select_id.
+
+(* create_a_table_instance: exactly the declared columns of the table, in order, duplicates included, under distinct ids *)
+Theorem instance_columns_are_declared : forall s node name t cols r s',
+  mk_instance s node name t cols = (r, s') -> map fst (tr_columns r) = cols /\ NoDup (tref_cids r).
+Proof. exact instance_has_declared_columns. Qed.
+Print Assumptions instance_columns_are_declared.
+
 Theorem lowerer_emits_closed_rq : forall ops s q, run init ops = Some s -> finish s = Some q ->
   rq_closed q /\ lookups_total q.
 Proof. exact lowerer_emits_closed. Qed.
@@ -104,6 +126,29 @@ Theorem toposort_decl_before_use : forall dag fuel start l,
   In start l /\ forall i n, nth_error l i = Some n -> incl (dag n) (firstn i l).
 Proof. exact toposort_spec. Qed.
 Print Assumptions toposort_decl_before_use.
+
+(* ---- utils/id_gen.rs: the generators the SQL back end loads from the RQ it is handed (79f4a51) ---- *)
+
+(* a loaded generator only hands out ids that do not occur in the query, and it starts at most at usize::MAX / 2 + 1, so
+   the 2^63 ids after it exist as usize values: the `next_id += 1` of gen cannot overflow in any run that terminates *)
+Theorem idgen_load_is_fresh_and_leaves_room : forall max_id ids g,
+  idgen_load max_id ids = Some g ->
+  (forall c, In c ids -> c < g) /\ g <= max_id / 2 + 1
+  /\ forall k, fst (idgen_gen (g + k)) = g + k /\ ~ In (g + k) ids.
+Proof. exact idgen_load_spec. Qed.
+Print Assumptions idgen_load_is_fresh_and_leaves_room.
+
+(* an id above usize::MAX / 2 anywhere in the query is refused (before 79f4a51: `id + 1` on usize::MAX overflowed) *)
+Theorem idgen_load_refuses_large_ids : forall max_id ids c,
+  In c ids -> max_id / 2 < c -> idgen_load max_id ids = None.
+Proof. exact idgen_load_refuses. Qed.
+Print Assumptions idgen_load_refuses_large_ids.
+
+Example c16_ex_idgen : idgen_load 18446744073709551615 [3; 0; 7; 2] = Some 8
+  /\ idgen_load 18446744073709551615 [3; 9223372036854775807] = Some 9223372036854775808
+  /\ idgen_load 18446744073709551615 [3; 9223372036854775808] = None
+  /\ idgen_load 18446744073709551615 [18446744073709551615] = None.
+Proof. vm_compute. auto. Qed.
 
 (* ---- non-vacuity: a real run.  `from t | derive {x = a + 1} | join (from u | select {id}) (t.id == that.id) | select {x}`
    The term is what vplib/rqcoq.py produces from the implementation's RQ JSON for this program; the operation
@@ -152,7 +197,8 @@ Proof. vm_compute. reflexivity. Qed.
 Example c16_ex_toposort : toposort (fun n => match n with 2 => [1; 0] | 1 => [0] | _ => [] end)%nat 10 2 = Some [0; 1; 2]%nat.
 Proof. vm_compute. reflexivity. Qed.
 
-(* ---- known findings, as the concrete RQs the unchanged implementation emits (replayed by the check) ---- *)
+(* ---- findings, as concrete RQs: c16_finding_* is what HEAD emits (open, replayed by the check); c16_regression_* is what a
+   repaired defect used to produce (a reappearance is a VIOLATION) ---- *)
 
 (* C16-F1  `from t | sort a | select {b} | take 3` : Take.sort names column 0 after Select [1] dropped it *)
 Definition finding_f1 : rq :=
@@ -160,6 +206,34 @@ Definition finding_f1 : rq :=
 
 Example c16_finding_f1_sort_carried_past_select :
   rq_diags finding_f1 = [DNotVisible 1 STakeSort 0] /\ rq_wf finding_f1 = false /\ rq_wf_lax finding_f1 = true.
+Proof. vm_compute. auto. Qed.
+
+(* C16-F1, the other dropper still present at HEAD: `from t | group {g} (sort a | aggregate {n = count this} | take 1)` -- the
+   Aggregate of a group body drops column 1 and the Take behind it is still sorted by it *)
+Definition finding_f1_group : rq :=
+  (mkRq [(mkTable 0 None (mkRel (KExternRef [[116]]) [(RSingle (Some [103])); (RSingle (Some [97])); RWildcard]))] (mkRel (KPipeline [(TFrom (mkTRef 0 [((RSingle (Some [103])), 0); ((RSingle (Some [97])), 1); (RWildcard, 2)] (Some [116]))); (TCompute 3 (ENode (KOp [115;116;100;46;99;111;117;110;116]) [ELit]) None true); (TAggregate [0] [3]); (TTake (None, (Some ELit)) [0] [(Asc, 1)]); (TSelect [0; 3])]) [(RSingle (Some [103])); (RSingle (Some [110]))])).
+
+Example c16_finding_f1_sort_carried_past_group_aggregate :
+  rq_diags finding_f1_group = [DNotVisible 1 STakeSort 1] /\ rq_wf_lax finding_f1_group = true.
+Proof. vm_compute. auto. Qed.
+
+(* C16-F6  `let dup = rel -> (rel | append rel)` / `from t | derive {x = a + 1} | dup` : the argument pipeline is lowered twice;
+   the second copy (table 1) selects Compute 2 of the first, and the main Select names the Append's instance columns *)
+Definition finding_f6 : rq :=
+  (mkRq [(mkTable 0 None (mkRel (KExternRef [[116]]) [(RSingle (Some [97])); RWildcard])); (mkTable 1 None (mkRel (KPipeline [(TFrom (mkTRef 0 [((RSingle (Some [97])), 3); (RWildcard, 4)] (Some [116]))); (TSelect [3; 4; 2])]) [(RSingle (Some [97])); RWildcard; (RSingle (Some [120]))]))] (mkRel (KPipeline [(TFrom (mkTRef 0 [((RSingle (Some [97])), 0); (RWildcard, 1)] (Some [116]))); (TCompute 2 (ENode (KOp [115;116;100;46;97;100;100]) [(ERef 0); ELit]) None false); (TAppend (mkTRef 1 [((RSingle (Some [97])), 5); (RWildcard, 6); ((RSingle (Some [120])), 7)] None)); (TSelect [5; 6; 7])]) [(RSingle (Some [97])); RWildcard; (RSingle (Some [120]))])).
+
+Example c16_finding_f6_node_lowered_twice :
+  rq_diags finding_f6 = [DForeign 1 SSelect 2; DNotVisible 2 SSelect 5; DNotVisible 2 SSelect 6; DNotVisible 2 SSelect 7]
+  /\ rq_wf_lax finding_f6 = false.
+Proof. vm_compute. auto. Qed.
+
+(* C16-F7  `from t | join (from u | select !{d}) (==id) | select {u.d}` : the main Select names column 2, the `d` of the
+   sub-pipeline's own From (table 2) *)
+Definition finding_f7 : rq :=
+  (mkRq [(mkTable 0 None (mkRel (KExternRef [[117]]) [(RSingle (Some [100])); (RSingle (Some [105;100])); RWildcard])); (mkTable 1 None (mkRel (KExternRef [[116]]) [(RSingle (Some [105;100])); RWildcard])); (mkTable 2 None (mkRel (KPipeline [(TFrom (mkTRef 0 [((RSingle (Some [100])), 2); ((RSingle (Some [105;100])), 3); (RWildcard, 4)] (Some [117]))); (TSelect [3; 4]); (TSelect [3; 4])]) [(RSingle (Some [105;100])); RWildcard]))] (mkRel (KPipeline [(TFrom (mkTRef 1 [((RSingle (Some [105;100])), 0); (RWildcard, 1)] (Some [116]))); (TJoin JInner (mkTRef 2 [((RSingle (Some [105;100])), 5); (RWildcard, 6)] None) (ENode (KOp [115;116;100;46;101;113]) [(ERef 0); (ERef 5)])); (TSelect [2]); (TSelect [2])]) [(RSingle (Some [100]))])).
+
+Example c16_finding_f7_excluded_column_bound_from_outside :
+  rq_diags finding_f7 = [DForeign 3 SSelect 2] /\ rq_wf_lax finding_f7 = false.
 Proof. vm_compute. auto. Qed.
 
 (* C16-F2 (FIXED in /repo by 8f24a64 "the carried sort does not leak into (or out of) the relational arguments of
@@ -174,9 +248,11 @@ Example c16_regression_f2_sort_leak_is_rejected :
   rq_diags regression_f2 = [DForeign 2 STakeSort 0] /\ rq_wf regression_f2 = false /\ rq_wf_lax regression_f2 = false.
 Proof. vm_compute. auto. Qed.
 
-(* C16-F4  `from t | join (from u | select {c, d} | join (from v | select {c}) true) true` : the closing Select of the main
-   pipeline names column 7, which is defined only inside table 4 (its instance has two columns for three declared ones) *)
-Definition finding_f4 : rq :=
+(* C16-F4 (FIXED in /repo by 3b8ac37 "a table instance keeps both of two unnamed columns instead of merging them"): what
+   the implementation used to emit for `from t | join (from u | select {c, d} | join (from v | select {c}) true) true` --
+   the closing Select of the main pipeline names column 7, which is defined only inside table 4 (the instance of table 3
+   had two columns for three declared ones).  Regression shape: not tolerated. *)
+Definition regression_f4 : rq :=
   (mkRq [ mkTable 0 None (mkRel (KExternRef [[118]]) [RSingle (Some [99]); RWildcard]);
           mkTable 1 None (mkRel (KExternRef [[117]]) [RSingle (Some [99]); RSingle (Some [100]); RWildcard]);
           mkTable 2 None (mkRel (KExternRef [[116]]) [RWildcard]);
@@ -189,6 +265,64 @@ Definition finding_f4 : rq :=
                            TSelect [0; 8; 9; 7]])
                [RWildcard; RSingle (Some [99]); RSingle (Some [100]); RSingle (Some [99])])).
 
-Example c16_finding_f4_foreign_id_in_select :
-  rq_diags finding_f4 = [DForeign 5 SSelect 7] /\ rq_wf_lax finding_f4 = false.
+Example c16_regression_f4_foreign_id_in_select_is_rejected :
+  rq_diags regression_f4 = [DForeign 5 SSelect 7] /\ rq_wf_lax regression_f4 = false.
+Proof. vm_compute. auto. Qed.
+
+(* ... and what HEAD emits for the same program, reproduced term for term by the Lowerer machine: a sub-pipeline whose
+   closing Select repeats a column name (c, d, c).  The instance of table 3 has three columns (7, 8, 9), the redirect
+   covers 1, 2 and 6, and node_mapping's Input entry for the instance keeps only the last `c` (hm_collect) -- the main
+   Select still reaches 7 through the redirected Compute target of the PL node that first named u.c. *)
+Definition s_c := [99]. Definition s_d := [100]. Definition s_v := [118].
+
+Definition f4_ops : list op :=
+  [ ODeclExtern [s_v] [RSingle (Some s_c); RWildcard];
+    ODeclExtern [s_u] [RSingle (Some s_c); RSingle (Some s_d); RWildcard];
+    ODeclExtern [s_t] [RWildcard];
+    OBegin false 142 (Some s_t) (SExisting 2);
+    OBegin true 132 (Some s_u) (SExisting 1);
+    ODeclare 134 (ERef 1) None false true;
+    ODeclare 135 (ERef 2) None false true;
+    OPush (TSelect [1; 2]);
+    OBegin true 122 (Some s_v) (SExisting 0);
+    ODeclare 124 (ERef 4) None false true;
+    OPush (TSelect [4]);
+    OEndInline 126 [(RSingle (Some s_c), 4)] (UJoin JInner ELit);
+    OEndInline 139 [(RSingle (Some s_c), 1); (RSingle (Some s_d), 2); (RSingle (Some s_c), 6)] (UJoin JInner ELit);
+    OEndTable None [(RWildcard, 0); (RSingle (Some s_c), 7); (RSingle (Some s_d), 8); (RSingle (Some s_c), 9)] ].
+
+Definition f4_head_rq : rq :=
+  (mkRq [(mkTable 0 None (mkRel (KExternRef [[118]]) [(RSingle (Some [99])); RWildcard])); (mkTable 1 None (mkRel (KExternRef [[117]]) [(RSingle (Some [99])); (RSingle (Some [100])); RWildcard])); (mkTable 2 None (mkRel (KExternRef [[116]]) [RWildcard])); (mkTable 4 None (mkRel (KPipeline [(TFrom (mkTRef 0 [((RSingle (Some [99])), 4); (RWildcard, 5)] (Some [118]))); (TSelect [4]); (TSelect [4])]) [(RSingle (Some [99]))])); (mkTable 3 None (mkRel (KPipeline [(TFrom (mkTRef 1 [((RSingle (Some [99])), 1); ((RSingle (Some [100])), 2); (RWildcard, 3)] (Some [117]))); (TSelect [1; 2]); (TJoin JInner (mkTRef 4 [((RSingle (Some [99])), 6)] None) ELit); (TSelect [1; 2; 6])]) [(RSingle (Some [99])); (RSingle (Some [100])); (RSingle (Some [99]))]))] (mkRel (KPipeline [(TFrom (mkTRef 2 [(RWildcard, 0)] (Some [116]))); (TJoin JInner (mkTRef 3 [((RSingle (Some [99])), 7); ((RSingle (Some [100])), 8); ((RSingle (Some [99])), 9)] None) ELit); (TSelect [0; 7; 8; 9])]) [RWildcard; (RSingle (Some [99])); (RSingle (Some [100])); (RSingle (Some [99]))])).
+
+Example c16_ex_f4_run_is_head_rq :
+  match run init f4_ops with Some s => finish s | None => None end = Some f4_head_rq /\ rq_wf f4_head_rq = true.
+Proof. vm_compute. auto. Qed.
+
+(* the last `c` is the one the instance can be asked for by name; the first is reachable only through the redirect *)
+Example c16_ex_hm_collect_last_wins :
+  hm_collect [(RSingle (Some s_c), 7); (RSingle (Some s_d), 8); (RSingle (Some s_c), 9)]
+  = [(RSingle (Some s_d), 8); (RSingle (Some s_c), 9)].
+Proof. vm_compute. reflexivity. Qed.
+
+(* C16-F5 (FIXED in /repo by 592b6f8 "leaving a nested group/window body restores the enclosing partition and frame ..."; the
+   same commit saves partition and window frame around relational arguments): what the implementation used to emit for
+   `from t | group {g} (take 2 | append (from u | take 3))` -- the Take of the appended sub-pipeline (table 2) partitioned
+   by column 0 of the main pipeline.  Regression shape: not tolerated. *)
+Definition regression_f5 : rq :=
+  (mkRq [(mkTable 0 None (mkRel (KExternRef [[117]]) [RWildcard])); (mkTable 1 None (mkRel (KExternRef [[116]]) [(RSingle (Some [103])); RWildcard])); (mkTable 2 None (mkRel (KPipeline [(TFrom (mkTRef 0 [(RWildcard, 2)] (Some [117]))); (TTake (None, (Some ELit)) [0] []); (TSelect [2])]) [RWildcard]))] (mkRel (KPipeline [(TFrom (mkTRef 1 [((RSingle (Some [103])), 0); (RWildcard, 1)] (Some [116]))); (TTake (None, (Some ELit)) [0] []); (TAppend (mkTRef 2 [(RWildcard, 3)] None)); (TSelect [0; 1])]) [(RSingle (Some [103])); RWildcard])).
+
+Example c16_regression_f5_partition_leak_is_rejected :
+  rq_diags regression_f5 = [DForeign 2 STakePartition 0] /\ rq_wf_lax regression_f5 = false.
+Proof. vm_compute. auto. Qed.
+
+(* the half of C16-F1 that 8d54bf7 repaired ("an aggregate outside a group ends the sort in effect"): what the
+   implementation used to emit for `from t | sort a | aggregate {n = count this} | take 3` -- Take.sort names column 0 after
+   the Aggregate dropped it.  rq_wf_lax (the predicate the lookup theorems need) does not look at WHICH transform dropped the
+   id; the check's classifier does, and reports this shape as a violation (only a Select, or the Aggregate of a group body,
+   is still recorded under F1). *)
+Definition regression_f1_aggregate : rq :=
+  (mkRq [(mkTable 0 None (mkRel (KExternRef [[116]]) [(RSingle (Some [97])); RWildcard]))] (mkRel (KPipeline [(TFrom (mkTRef 0 [((RSingle (Some [97])), 0); (RWildcard, 1)] (Some [116]))); (TSort [(Asc, 0)]); (TCompute 2 (ENode (KOp [115;116;100;46;99;111;117;110;116]) [ELit]) None true); (TAggregate [] [2]); (TTake (None, (Some ELit)) [] [(Asc, 0)]); (TSelect [2])]) [(RSingle (Some [110]))])).
+
+Example c16_regression_f1_sort_past_plain_aggregate :
+  rq_diags regression_f1_aggregate = [DNotVisible 1 STakeSort 0] /\ rq_wf regression_f1_aggregate = false.
 Proof. vm_compute. auto. Qed.
